@@ -772,6 +772,9 @@ fn now_ms() -> u64 {
     ts.tv_sec as u64 * 1000 + ts.tv_nsec as u64 / 1_000_000
 }
 
+/// (descriptor the case's thread was reading, write ends of the same pipe found open in this process)
+static SELF_HELD: std::sync::Mutex<Option<(i32, Vec<i32>)>> = std::sync::Mutex::new(None);
+
 fn start_watchdog() {
     static ONCE: std::sync::Once = std::sync::Once::new();
     ONCE.call_once(|| {
@@ -783,6 +786,40 @@ fn start_watchdog() {
                 // would show up in the descriptor table of the case)
                 WATCHDOG_FIRED.fetch_add(1, std::sync::atomic::Ordering::SeqCst);
                 let me = std::process::id();
+                // Is the case's thread (the process's main thread) parked in read(2) on a pipe whose write end is
+                // open in this very process? Then nothing outside can end the read: the operation waits for an
+                // end-of-file that only a descriptor it left open itself withholds. Those write ends are recorded,
+                // then closed here so that the worker goes on; the case is reported by `run_case`.
+                if let Ok(sc) = std::fs::read_to_string(format!("/proc/self/task/{me}/syscall")) {
+                    let f: Vec<&str> = sc.split_whitespace().collect();
+                    if f.first() == Some(&"0") {
+                        if let Some(rfd) = f.get(1).and_then(|x| i64::from_str_radix(x.trim_start_matches("0x"), 16).ok()) {
+                            if let Ok(target) = std::fs::read_link(format!("/proc/self/fd/{rfd}")) {
+                                if target.to_string_lossy().starts_with("pipe:") {
+                                    let mut held = Vec::new();
+                                    if let Ok(rd) = std::fs::read_dir("/proc/self/fd") {
+                                        for e in rd.flatten() {
+                                            let Some(n) = e.file_name().to_str().and_then(|n| n.parse::<i32>().ok()) else { continue };
+                                            if n as i64 == rfd || std::fs::read_link(e.path()).ok().as_ref() != Some(&target) {
+                                                continue;
+                                            }
+                                            let flags = std::fs::read_to_string(format!("/proc/self/fdinfo/{n}")).ok().and_then(|t| t.lines().find_map(|l| l.strip_prefix("flags:").and_then(|v| i64::from_str_radix(v.trim(), 8).ok()))).unwrap_or(0);
+                                            if flags & 3 != 0 {
+                                                held.push(n);
+                                            }
+                                        }
+                                    }
+                                    if !held.is_empty() {
+                                        *SELF_HELD.lock().unwrap() = Some((rfd as i32, held.clone()));
+                                        for n in held {
+                                            unsafe { libc::close(n) };
+                                        }
+                                    }
+                                }
+                            }
+                        }
+                    }
+                }
                 if let Ok(rd) = std::fs::read_dir("/proc") {
                     for ent in rd.flatten() {
                         let Some(pid) = ent.file_name().to_str().and_then(|n| n.parse::<i32>().ok()) else { continue };
@@ -811,6 +848,12 @@ pub fn run_case(env: &Env, name: &str, op: Op, fault: Option<(u32, i32)>, fault2
         let _ = sc::verif::log_end();
         sc::verif::clear_plan();
         reap();
+        if let Some((rfd, held)) = SELF_HELD.lock().unwrap().take() {
+            return Err(Failure::new(
+                format!("{name}|never-returns|reads a pipe whose write end it left open itself"),
+                format!("{name} (fault {fault:?}/{fault2:?}) sat in read({rfd}) for more than 8 s on a pipe whose write end was open in the same process as descriptor(s) {held:?} and nowhere else: the end-of-file it waits for is withheld by a descriptor the operation itself did not close (the harness closed it to go on)"),
+            ));
+        }
         rep.class("harness-watchdog-killed-a-blocked-child(not judged)");
         eprintln!("[C12] watchdog: {name} with fault {fault:?}/{fault2:?} waited for a child for more than 8 s; children killed, case not judged");
         return Ok(Vec::new());
